@@ -36,6 +36,8 @@ type Cfg struct {
 	// instance c may publish again (an instance that disappears from the bucket and returns).
 	// Script: choices that are taken as soon as they are offered, in this order, at no cost: the exploration proper
 	// starts from the state they lead to (a non-initial state that would cost several deviations to reach).
+	// CleanOlder: a cleaner may remove the superseded (older) snapshot of instance c at any time
+	CleanOlder      bool     `json:"clean_older"`
 	Single          []string `json:"single"`
 	Republish       bool     `json:"republish"`
 	Script          []string `json:"script"`
@@ -236,7 +238,7 @@ func Run(cfg Cfg, ctx *explore.Ctx) Result {
 	retried := map[string]bool{} // downloader threads whose retry timer fired since the last storage poll
 	produced, polledAt := 0, -1  // snapshots handed to the receiver / value of produced at the consumer's last empty poll
 	polls := 0
-	published, vanished, republished := false, false, false
+	published, vanished, republished, olderCleaned := false, false, false, false
 	progress := true // something other than the receiver's own poll happened since the last storage poll
 	script := append([]string{}, cfg.Script...)
 	maxDL, maxDC := 0.0, 0.0
@@ -296,10 +298,31 @@ func Run(cfg Cfg, ctx *explore.Ctx) Result {
 					put("c", 4, false)
 				}}})
 			}
-			if cfg.Publish && !published {
+			if cfg.Publish && !published && !cfg.CleanOlder {
 				out = append(out, sched.Choice{Label: "publish-newer-b", Cost: 1, Act: &sched.Action{Do: func() {
 					published = true
 					put("b", 3, false)
+				}}})
+			}
+			if cfg.CleanOlder && !olderCleaned {
+				// (with Publish: instance b publishes in the same interval between two polls - one event, so that the
+				// pair costs one deviation)
+				out = append(out, sched.Choice{Label: "older-of-c-cleaned", Cost: 1, Act: &sched.Action{Do: func() {
+					olderCleaned = true
+					if cfg.Publish && !published {
+						published = true
+						put("b", 3, false)
+					}
+					var cs []string
+					for _, n := range b.Names() {
+						if strings.HasPrefix(n, db+"__c__") {
+							cs = append(cs, n)
+						}
+					}
+					if len(cs) >= 2 {
+						b.Remove(cs[0])
+						delete(decodable, cs[0])
+					}
 				}}})
 			}
 			if cfg.Vanish && !vanished {
